@@ -38,7 +38,8 @@ ASSUMPTIONS = ['the reception pipeline after the unwrap prologue (packet decodin
                'v1 front-end (ndn.app) has no PIT-token support by design: the token clause is checked on appv2 only']
 
 LP = 0x64
-ORDER = []      # Type numbers of LpPacketValue in declared order (filled by run)
+# NDNLPv2: header fields in ascending Type order, Fragment last (what forwarders emit; independent of the library)
+ORDER = [0x52, 0x53, 0x62, 0x320, 0x32C, 0x330, 0x334, 0x340, 0x344, 0x348, 0x34C, 0x350, 0x50]
 T_FRAG, T_FIDX, T_FCNT, T_TOKEN, T_NACK, T_REASON = 0x50, 0x52, 0x53, 0x62, 0x320, 0x321
 
 
@@ -199,7 +200,7 @@ def top_elements(wire):
 
 
 def in_declared_order(els, order):
-    """do the recognised headers appear in the order the library's model declares (strictly increasing)?"""
+    """do the headers NDNLPv2 defines appear in the prescribed order (strictly increasing Type, Fragment last)?"""
     last = -1
     for t, _ in els:
         if t in order:
@@ -467,6 +468,19 @@ def typ_of(w):
     return TG.read_num(w, 0)[0]
 
 
+def echoes(ctx, out, tok, data):
+    """the oracle for one reply: [out] = wires put on the face.  Without token: the data itself.  With token:
+    ONE envelope that the specification reads as (token, data unmodified) - other headers are not forbidden."""
+    if len(out) != 1:
+        return False
+    if tok is None:
+        return out[0] == data
+    s = ctx.call([3, LP, out[0]])
+    if s[0] == 12:      # [data] is not a network packet (empty / no Type number): only the exact bytes can be compared
+        return out[0] == bytes(ctx.call([9, [tok], data]))
+    return s[0] == 3 and s[2] and bytes(s[2][0]) == tok and bytes(s[3]) == data
+
+
 def check_transparent(ctx, ver, pend, pkt, env_wire, token, origin, case_extra):
     """twin run: [pkt] bare vs inside [env_wire]"""
     res = []
@@ -492,7 +506,7 @@ def check_transparent(ctx, ver, pend, pkt, env_wire, token, origin, case_extra):
             cls = 'token-lost' if hw[0][3] is None else 'token-altered'
         ctx.violation(site, cls, f'bare: {obs_b!r}; wrapped: {obs_w!r}', case)
     exp_sent = [bytes(ctx.call([9, [tok] if tok is not None else [], s])) for s in sent_b]
-    if sent_w != exp_sent:
+    if len(sent_w) != len(sent_b) or not all(echoes(ctx, [w], tok, s) for w, s in zip(sent_w, sent_b)):
         cls = 'reply-not-echoing-token' if tok is not None else 'reply-differs'
         ctx.violation(site, cls, f'bare run sent {sent_b!r}, wrapped run sent {sent_w!r}, expected {exp_sent!r}', case)
     nontriv = bool(obs_b) or bool(sent_b)
@@ -606,8 +620,8 @@ def run_tokens(ctx, order, tokens, perms, origin, hdr_extra=True, late=None):
                 mod = [bytes(x) for x in mo[1][1]] if not is_err(mo[1]) else ('raise', mo[1][1])
                 if mo[0] != j or mod != out:
                     ctx.disagree('reply', 'model and implementation send different bytes', case, mo, out)
-                if out != spec:
-                    tok = tokens[j]
+                tok = tokens[j]
+                if (out != [] if not spec else (isinstance(out, tuple) or not echoes(ctx, out, tok, data))):
                     cls = 'reply-differs' if tok is None else ('reply-not-echoing-token:empty' if tok == b'' else 'reply-not-echoing-token')
                     ctx.violation('NDNApp.v2.reply', cls,
                                   f'Interest {j} arrived with token {tok!r}; reply put {out!r} on the face, expected {spec!r}', case)
@@ -682,7 +696,7 @@ def check_put_token(ctx, env, data, token, running=True):
         ctx.disagree('_put_raw_packet_with_pit_token', 'different bytes', case, m, out)
     if running:
         spec = [bytes(ctx.call([9, [token], data]))]
-        if out != spec:
+        if isinstance(out, tuple) or not echoes(ctx, out, token, data):
             ctx.violation('NDNApp.v2.reply', 'reply-not-echoing-token' + (':empty' if token == b'' else ''),
                           f'expected {spec!r}, got {out!r}', case)
     ctx.case(('put', data, token, running), True, None, 'E.put_with_token')
@@ -694,9 +708,7 @@ def run(ctx):
     logging.disable(logging.CRITICAL)      # the library logs a warning for every dropped packet
     from ndn.encoding import ndnlp_v2 as LPM
     rng = ctx.rng
-    ldesc = D.reflect_class(LPM.LpPacketValue)
-    order = [t for t, _ in ldesc[2]]
-    ORDER[:] = order
+    order = ORDER
     pkts = packet_stream(ctx, ctx.n(40, 400))
     interests = [w for k, w in pkts if k == 'interest']
 
